@@ -31,6 +31,8 @@ CONSTANTS TMax,     \* pack: every format (composition into widths >= 1) of ever
           EMax,     \* pack: ... and every tuple of in-range field values when the total width is <= EMax
           OMax,     \* pack: ... and the same tuples pushed out of range (to be masked) when the total width is <= OMax
           UAll,     \* unpack: formats of total width <= UAll (at most 8) with every byte value
+          PMax,     \* unpack: formats of total width <= 12 otherwise with every string over the first PMax probe bytes
+          VMax,     \* unpack: formats of total width <= VMax with explicit sizes, longer buffers, both orders
           IMax,     \* packInto: formats of total width <= IMax against every buffer / offset / size / order
           NMax,     \* bytify: every n in -NMax..NMax (and boundary values around 2^8, 2^16, 2^24)
           LMax,     \* unbytify / hexify: every byte string of length <= LMax
@@ -45,10 +47,28 @@ Max2(a, b) == IF a >= b THEN a ELSE b
 Byte == 0..255
 
 \* ------------------------------------------------------------------ bit strings
+Bit == {0, 1}
 Zeros(k) == [i \in 1..k |-> 0]
-BitsOf(x, w) == [i \in 1..w |-> (x \div 2^(w - i)) % 2]          \* x >= 0, w <= 31
-ValOf(bs) == FoldLeft(LAMBDA a, b : 2 * a + b, 0, bs)             \* only for short strings (< 31 bits)
+BitsOfDef(x, w) == [i \in 1..w |-> (x \div 2^(w - i)) % 2]       \* big endian binary digits of x >= 0, w <= 31
+ValOfDef(bs) == FoldLeft(LAMBDA a, b : 2 * a + b, 0, bs)          \* the number written by a short bit string
+\* TLC evaluates the two definitions above slowly, so octets go through tables computed once from those definitions
+\* (SubSeq and @@ make TLC store the tables as explicit values)
+OctetTable == SubSeq([k \in 1..256 |-> SubSeq(BitsOfDef(k - 1, 8), 1, 8)], 1, 256)
+OctetBitsOf(b) == OctetTable[b + 1]                                \* = BitsOfDef(b, 8)
+OctetValue == [o \in [1..8 -> Bit] |-> ValOfDef(o)] @@ <<>>        \* OctetValue[o] = ValOfDef(o)
+LeftPad(bs) == Zeros((8 - (Len(bs) % 8)) % 8) \o bs                \* to a whole number of octets
+Octets(bits) == [k \in 1..(Len(bits) \div 8) |-> OctetValue[SubSeq(bits, 8 * k - 7, 8 * k)]]
+OctetBits(by) == FoldLeft(LAMBDA a, b : a \o OctetBitsOf(b), <<>>, by)
+\* numbers below 2^24 as 24 bits, numbers below 2^31 as 32 bits; short bit strings back to numbers
+BitsOf(x, w) == LET n == (w + 7) \div 8
+                    all == OctetBits([i \in 1..n |-> (x \div 256^(n - i)) % 256])
+                IN  SubSeq(all, 8 * n - w + 1, 8 * n)
+ValOf(bs) == FoldLeft(LAMBDA a, o : 256 * a + o, 0, Octets(LeftPad(bs)))
 NatBits(x) == BitsOf(x, 26)                                        \* enumerated numbers are below 2^26
+\* the tables and the fast forms agree with the definitions
+ASSUME \A b \in 0..255 : OctetBitsOf(b) = BitsOfDef(b, 8) /\ OctetValue[OctetBitsOf(b)] = b /\ ValOfDef(OctetBitsOf(b)) = b
+ASSUME \A x \in (0..600) \cup {65535, 65536, 16777215, 16777216, 33554431, 1073741823} : \A w \in {19, 26, 30} :
+          x < 2^w => BitsOf(x, w) = BitsOfDef(x, w) /\ ValOf(BitsOf(x, w)) = x /\ ValOfDef(BitsOf(x, w)) = x
 Low(bs, w) == LET n == Len(bs) IN IF n >= w THEN SubSeq(bs, n - w + 1, n) ELSE Zeros(w - n) \o bs
 Truth(bs) == IF \E i \in DOMAIN bs : bs[i] = 1 THEN 1 ELSE 0
 IsZero(bs) == Truth(bs) = 0
@@ -63,17 +83,17 @@ Inc(bs) == IF \A i \in DOMAIN bs : bs[i] = 1 THEN Zeros(Len(bs))
 TwoC(mag, w) == Inc(Inv(Low(mag, w)))
 
 Mirror(by, rev) == IF rev THEN Reverse(by) ELSE by
-Octets(bits) == [k \in 1..(Len(bits) \div 8) |-> ValOf(SubSeq(bits, 8 * k - 7, 8 * k))]
-OctetBits(by) == FlattenSeq([k \in DOMAIN by |-> BitsOf(by[k], 8)])
 
 \* ------------------------------------------------------------------ bit field formats
 Total(fmt) == FoldLeft(LAMBDA a, w : a + w, 0, fmt)
 Need(fmt) == (Total(fmt) + 7) \div 8                               \* least number of bytes that hold the format
 SizeOf(fmt, size) == IF size = None THEN Need(fmt) ELSE size
 Fits(fmt, size) == Total(fmt) <= 8 * SizeOf(fmt, size)              \* otherwise the functions raise
+\* (unpackify also raises when the format has more bits than the buffer: Total(fmt) > 8 * Len(b))
 FieldBits(w, bs) == IF w = 1 THEN <<Truth(bs)>> ELSE Low(bs, w)
 Masked(fmt, bvals) == [i \in DOMAIN fmt |-> FieldBits(fmt[i], bvals[i])]
-Image(fmt, bvals, nb) == LET body == FlattenSeq(Masked(fmt, bvals)) IN body \o Zeros(8 * nb - Len(body))
+Flatten(seqs) == FoldLeft(LAMBDA a, x : a \o x, <<>>, seqs)
+Image(fmt, bvals, nb) == LET body == Flatten(Masked(fmt, bvals)) IN body \o Zeros(8 * nb - Len(body))
 
 Pack(fmt, bvals, size, rev) == Mirror(Octets(Image(fmt, bvals, SizeOf(fmt, size))), rev)
 
@@ -127,7 +147,7 @@ DigitVal(ch) == IF \E i \in 1..16 : HexLow[i] = ch THEN (CHOOSE i \in 1..16 : He
 IsHex(ch) == \E i \in 1..16 : HexLow[i] = ch \/ HexUp[i] = ch
 Even(h) == IF Len(h) % 2 = 1 THEN <<"0">> \o h ELSE h
 LowerHex(h) == [i \in DOMAIN h |-> HexLow[DigitVal(h[i]) + 1]]
-Hexify(by) == FlattenSeq([k \in DOMAIN by |-> <<HexLow[by[k] \div 16 + 1], HexLow[(by[k] % 16) + 1]>>])
+Hexify(by) == Flatten([k \in DOMAIN by |-> <<HexLow[by[k] \div 16 + 1], HexLow[(by[k] % 16) + 1]>>])
 Unhexify(h) == LET e == Even(h) IN [k \in 1..(Len(e) \div 2) |-> 16 * DigitVal(e[2 * k - 1]) + DigitVal(e[2 * k])]
 Binize(n, size) == [i \in 1..size |-> IF (n \div 2^(size - i)) % 2 = 1 THEN "1" ELSE "0"]
 Unbinize(u) == FoldLeft(LAMBDA a, ch : 2 * a + (IF ch = "1" THEN 1 ELSE 0), 0, u)
@@ -135,11 +155,18 @@ BinizeB(bits, size) == LET l == Low(bits, size) IN [i \in 1..size |-> IF l[i] = 
 UnbinizeB(u) == [i \in DOMAIN u |-> IF u[i] = "1" THEN 1 ELSE 0]
 
 \* ------------------------------------------------------------------ enumerated cases
+\* A format is a composition of its total width t into field widths >= 1.  Compositions of t correspond to the subsets
+\* of the cut positions 1..t-1, i.e. to the codes 0..2^(t-1)-1 (bit j-1 set: a field ends after bit j); enumerating by
+\* code lets each shard build only its own formats.  Comp is the plain recursive definition, compared below.
 RECURSIVE Comp(_)
-Comp(t) == IF t = 0 THEN {<<>>} ELSE UNION {{<<w>> \o r : r \in Comp(t - w)} : w \in 1..t}   \* compositions of t
-Hash(f) == FoldLeft(LAMBDA a, w : (a * 5 + w + 1) % 1009, Len(f), f)
+Comp(t) == IF t = 0 THEN {<<>>} ELSE UNION {{<<w>> \o r : r \in Comp(t - w)} : w \in 1..t}
+Fmt(t, code) == IF t = 0 THEN <<>>
+                ELSE LET cs == <<0>> \o SetToSortSeq({j \in 1..(t - 1) : (code \div 2^(j - 1)) % 2 = 1}, <) \o <<t>>
+                     IN  [i \in 1..(Len(cs) - 1) |-> cs[i + 1] - cs[i]]
+Codes(t) == IF t = 0 THEN {0} ELSE 0..(2^(t - 1) - 1)
+ASSUME \A t \in 0..9 : {Fmt(t, code) : code \in Codes(t)} = Comp(t) /\ Cardinality(Comp(t)) = Cardinality(Codes(t))
 MineN(x) == x % NShards = Shard
-Formats(lo, hi) == {f \in UNION {Comp(t) : t \in lo..hi} : MineN(Hash(f))}
+Formats(lo, hi) == UNION {{Fmt(t, code) : code \in {x \in Codes(t) : MineN(x + 3 * t)}} : t \in lo..hi}
 
 RECURSIVE InRange(_)
 InRange(f) == IF f = <<>> THEN {<<>>} ELSE {<<x>> \o r : x \in 0..(2^f[1] - 1), r \in InRange(Tail(f))}
@@ -153,18 +180,19 @@ PackVals(f) == Patterns(f) \cup (IF Total(f) <= EMax THEN InRange(f) ELSE {})
                            \cup (IF Total(f) <= OMax THEN {Pushed(f, v) : v \in InRange(f)} ELSE {})
 PackCases == UNION {{[k |-> "pack", fmt |-> f, vals |-> v] : v \in PackVals(f)} : f \in Formats(0, TMax)}
 
-ProbeBytes == {0, 255, 165, 90, 129, 60}          \* 00 FF A5 5A 81 3C
+ProbeSeq == <<0, 255, 165, 90, 129, 60>>          \* 00 FF A5 5A 81 3C
+ProbeBytes == {ProbeSeq[i] : i \in 1..6}
 ByteStrings(n, S) == [1..n -> S]
 ProbeString(n) == [i \in 1..n |-> (151 * i + 76) % 256]
 UnpackBufs(f) == IF Total(f) <= UAll /\ Need(f) <= 1 THEN ByteStrings(Need(f), Byte)
-                 ELSE IF Need(f) <= 2 /\ Total(f) <= 12 THEN ByteStrings(Need(f), ProbeBytes)
+                 ELSE IF Need(f) <= 2 /\ Total(f) <= 12 THEN ByteStrings(Need(f), {ProbeSeq[i] : i \in 1..PMax})
                  ELSE {[i \in 1..Need(f) |-> x[(i % 2) + 1]] : x \in {<<255, 255>>, <<165, 90>>, <<90, 165>>, <<129, 1>>}}
 UnpackCases ==
     UNION {{[k |-> "unpack", fmt |-> f, b |-> b, size |-> None, rev |-> FALSE] : b \in UnpackBufs(f)} : f \in Formats(0, TMax)}
     \cup  \* explicit size (exact, larger), buffer longer than size (the rest is not read), reversed order
     UNION {{[k |-> "unpack", fmt |-> f, b |-> ProbeString(SizeOf(f, s) + extra), size |-> s, rev |-> r] :
-               s \in {None, Need(f), Need(f) + 1}, extra \in 0..2, r \in BOOLEAN}
-           : f \in Formats(0, IF TMax < 12 THEN TMax ELSE 12)}
+               s \in {None, Need(f), Need(f) + 1}, extra \in {0, 2}, r \in BOOLEAN}
+           : f \in Formats(0, VMax)}
 
 IntoBufs == {<<>>, <<165>>, <<165, 90, 195>>, <<17, 34, 51, 68, 85, 102>>}
 IntoCases == UNION {{[k |-> "into", fmt |-> f, vals |-> v, size |-> s, rev |-> r, buf |-> bf, off |-> o] :
@@ -172,8 +200,11 @@ IntoCases == UNION {{[k |-> "into", fmt |-> f, vals |-> v, size |-> s, rev |-> r
                         s \in {None, Need(f) + 1}, r \in BOOLEAN, bf \in IntoBufs, o \in 0..4}
                     : f \in Formats(0, IMax)}
 
-\* a size too small for the format: all three functions raise
-ErrCases == {[k |-> "err", fmt |-> f, size |-> Need(f) - 1] : f \in Formats(1, IF TMax < 12 THEN TMax ELSE 12)}
+\* documented errors: a size too small for the format (all three functions raise); a buffer with fewer bits than the
+\* format (unpackify raises).  blen is the length of the buffer handed to unpackify.
+ErrCases == UNION {{[k |-> "err", fmt |-> f, size |-> Need(f) - 1, blen |-> Need(f) + 1]}
+                   \cup {[k |-> "err", fmt |-> f, size |-> None, blen |-> n] : n \in {0, Need(f) - 1, Need(f)}}
+                   : f \in Formats(1, IF TMax < 12 THEN TMax ELSE 12)}
 
 Edge == {255, 256, 257, 65535, 65536, 65537, 16777215, 16777216, 16777217, 33554431}
 BytifyNs == {n \in ((-NMax)..NMax) \cup Edge \cup {-e : e \in Edge} : MineN(n)}
@@ -201,7 +232,8 @@ Cases == SetToSeq(PackCases) \o SetToSeq(UnpackCases) \o SetToSeq(IntoCases) \o 
          \o SetToSeq(UnbinizeCases) \o SetToSeq(SignCases) \o FileCases
 
 \* ------------------------------------------------------------------ the table (input -> output)
-BVals(vals) == [i \in DOMAIN vals |-> NatBits(vals[i])]
+ValBits(v) == BitsOf(v, 19)                                        \* enumerated field values are below 2^19
+BVals(vals) == [i \in DOMAIN vals |-> ValBits(vals[i])]
 Row(x) ==
     CASE x.k = "pack" ->
             LET bv == BVals(x.vals)
@@ -212,7 +244,7 @@ Row(x) ==
       [] x.k = "unpack" ->
             LET u == Ints(Unpack(x.fmt, x.b, x.size, x.rev)) IN x @@ [u |-> u, ub |-> Render(x.fmt, u, TRUE)]
       [] x.k = "into" -> x @@ PackInto(x.buf, x.fmt, BVals(x.vals), x.size, x.off, x.rev)
-      [] x.k = "err" -> x @@ [raises |-> ~Fits(x.fmt, x.size)]
+      [] x.k = "err" -> x @@ [raises |-> ~Fits(x.fmt, x.size), short |-> Total(x.fmt) > 8 * x.blen]
       [] x.k = "bytify" -> x @@ [b |-> Bytify(x.n, x.size, x.rev, x.strict)]
       [] x.k = "unbytify" -> x @@ [n |-> Unbytify(x.b, x.rev)]
       [] x.k = "hexify" -> x @@ [h |-> Hexify(x.b)]
@@ -233,7 +265,7 @@ Row(x) ==
       [] x.k = "wbinize" -> x @@ [u |-> BinizeB(x.bits, x.size)]
       [] x.k = "wunbinize" -> x @@ [bits |-> UnbinizeB(x.u)]
 
-Table == LET cs == Cases IN [i \in 1..Len(cs) |-> Row(cs[i])]
+Table == LET cs == Cases IN [i \in 1..Len(cs) |-> LET x == cs[i] IN Row(x)]
 
 \* every case is an initial state (the state IS the case, nothing moves): TLC evaluates the invariants on each
 VARIABLE c
@@ -249,52 +281,65 @@ XSize == IF K = "pack" THEN None ELSE X.size
 XRev == IF K = "pack" THEN FALSE ELSE X.rev
 
 \* ------------------------------------------------------------------ properties
-\* unpacking packed bytes returns every value masked to its field width, plus the (zero) padding field
-RoundTrip == IsPack =>
-    LET nb == SizeOf(X.fmt, XSize)
-        pad == 8 * nb - Total(X.fmt)
-        back == Unpack(X.fmt, Pack(X.fmt, XB, XSize, XRev), XSize, XRev)
-    IN  /\ Len(Pack(X.fmt, XB, XSize, XRev)) = nb
-        /\ back = Masked(X.fmt, XB) \o (IF pad > 0 THEN <<Zeros(pad)>> ELSE <<>>)
+\* (related laws share one invariant so that TLC evaluates Pack / Unpack once per case)
+PackLaws == IsPack =>
+    LET fmt == X.fmt
+        xb == XB
+        nb == SizeOf(fmt, XSize)
+        pad == 8 * nb - Total(fmt)
+        fwd == Pack(fmt, xb, XSize, FALSE)
+        bwd == Pack(fmt, xb, XSize, TRUE)
+        p == IF XRev THEN bwd ELSE fwd
+        expect == Masked(fmt, xb) \o (IF pad > 0 THEN <<Zeros(pad)>> ELSE <<>>)
+    IN  /\ Len(fwd) = nb                                        \* exactly size bytes
+        \* RoundTrip: unpacking packed bytes returns every value masked to its field width, plus the zero padding field
+        /\ Unpack(fmt, p, XSize, XRev) = expect
+        \* Mirror: the byte order variants are mirror images, for packing and for unpacking
+        /\ bwd = Reverse(fwd)
+        /\ Unpack(fmt, Reverse(p), XSize, ~XRev) = expect
+        \* SizePads: a larger size only appends zero bytes
+        /\ Pack(fmt, xb, nb + 2, FALSE) = fwd \o <<0, 0>>
 \* masking on bit strings is reduction modulo 2^w (truth value for one bit fields); values already in range are unchanged
 MaskIsMod == K \in {"pack", "into"} => \A i \in DOMAIN X.fmt :
-    LET w == X.fmt[i]  v == X.vals[i]  m == ValOf(FieldBits(w, NatBits(v)))
+    LET w == X.fmt[i]  v == X.vals[i]  m == ValOf(FieldBits(w, ValBits(v)))
     IN  /\ m = IF w = 1 THEN (IF v = 0 THEN 0 ELSE 1) ELSE v % 2^w
         /\ (v < 2^w) => m = v
 \* the packed bytes read as one big endian number are the positional sum of the masked fields
 Positional == (K \in {"pack", "into"} /\ SizeOf(X.fmt, XSize) <= 3) =>
-    LET nb == SizeOf(X.fmt, XSize)
-        m == Ints(Masked(X.fmt, XB))
-        terms == [i \in DOMAIN X.fmt |-> m[i] * 2^(8 * nb - Total(SubSeq(X.fmt, 1, i)))]
-    IN  Unbytify(Pack(X.fmt, XB, XSize, FALSE), FALSE) = FoldLeft(LAMBDA a, t : a + t, 0, terms)
-\* the byte order variants are mirror images, for packing and for unpacking
-MirrorPack == IsPack =>
-    /\ Pack(X.fmt, XB, XSize, TRUE) = Reverse(Pack(X.fmt, XB, XSize, FALSE))
-    /\ Unpack(X.fmt, Reverse(Pack(X.fmt, XB, XSize, XRev)), XSize, ~XRev) = Unpack(X.fmt, Pack(X.fmt, XB, XSize, XRev), XSize, XRev)
-\* a larger size only appends zero bytes
-SizePads == IsPack => LET nb == SizeOf(X.fmt, XSize) IN Pack(X.fmt, XB, nb + 2, FALSE) = Pack(X.fmt, XB, XSize, FALSE) \o <<0, 0>>
+    LET fmt == X.fmt
+        nb == SizeOf(fmt, XSize)
+        m == Ints(Masked(fmt, XB))
+        terms == [i \in DOMAIN fmt |-> m[i] * 2^(8 * nb - Total(SubSeq(fmt, 1, i)))]
+    IN  Unbytify(Pack(fmt, XB, XSize, FALSE), FALSE) = FoldLeft(LAMBDA a, t : a + t, 0, terms)
 \* packing into a buffer: the window holds the packed bytes, everything else is as before, the size is returned
 IntoFrame == K \in {"into", "wpack"} =>
     LET r == PackInto(X.buf, X.fmt, XB, X.size, X.off, X.rev)
         p == Pack(X.fmt, XB, X.size, X.rev)
+        out == r.out
     IN  /\ r.ret = SizeOf(X.fmt, X.size)
-        /\ Len(r.out) = Max2(Len(X.buf), X.off + r.ret)
-        /\ SubSeq(r.out, X.off + 1, X.off + r.ret) = p
-        /\ \A j \in 1..Len(X.buf) : (j <= X.off \/ j > X.off + r.ret) => r.out[j] = X.buf[j]
-\* unpacking arbitrary bytes and packing the fields again (with the padding field) restores the bytes read
-Repack == K \in {"unpack", "wunpack"} =>
-    LET nb == SizeOf(X.fmt, X.size)
-        u == Unpack(X.fmt, X.b, X.size, X.rev)
-        pf == Padded(X.fmt, X.size)
+        /\ Len(out) = Max2(Len(X.buf), X.off + r.ret)
+        /\ SubSeq(out, X.off + 1, X.off + r.ret) = p
+        /\ \A j \in 1..Len(X.buf) : (j <= X.off \/ j > X.off + r.ret) => out[j] = X.buf[j]
+\* unpacking arbitrary bytes and packing the fields again (with the padding field) restores the bytes read;
+\* the fields have the widths of the format; the reversed buffer read in the other order gives the same fields
+UnpackLaws == K \in {"unpack", "wunpack"} =>
+    LET fmt == X.fmt
+        nb == SizeOf(fmt, X.size)
+        u == Unpack(fmt, X.b, X.size, X.rev)
+        pf == Padded(fmt, X.size)
     IN  /\ Len(u) = Len(pf)
         /\ \A i \in DOMAIN pf : Len(u[i]) = pf[i]
         /\ Pack(pf, u, nb, FALSE) = SubSeq(Mirror(X.b, X.rev), 1, nb)
-        /\ Unpack(X.fmt, Reverse(X.b), X.size, ~X.rev) = u
+        /\ Unpack(fmt, Reverse(X.b), X.size, ~X.rev) = u
+\* booleans exactly for the one bit fields of the format when requested; every field within its width
 BooleanRender == K \in {"pack", "unpack"} =>
-    LET r == Row(X) IN
-    /\ Len(r.ub) = Len(r.u)
-    /\ \A i \in DOMAIN r.u : IF i <= Len(X.fmt) /\ X.fmt[i] = 1 THEN r.ub[i] = (r.u[i] = 1) /\ r.u[i] \in {0, 1}
-                             ELSE r.ub[i] = r.u[i] /\ r.u[i] \in 0..(2^Padded(X.fmt, XSize)[i] - 1)
+    LET r == Row(X)
+        u == r.u
+        ub == r.ub
+        pf == Padded(X.fmt, XSize)
+    IN  /\ Len(ub) = Len(u)
+        /\ \A i \in DOMAIN u : IF i <= Len(X.fmt) /\ X.fmt[i] = 1 THEN ub[i] = (u[i] = 1) /\ u[i] \in {0, 1}
+                               ELSE ub[i] = u[i] /\ u[i] \in 0..(2^pf[i] - 1)
 \* integers and bytes are mutual inverses; order variants mirror; negative / strict is two's complement truncation
 BytifyInverse == K = "bytify" =>
     LET b == Bytify(X.n, X.size, X.rev, X.strict)
